@@ -8,6 +8,23 @@ ID = 'C16'
 # wire format of error objects (see coq/Extr/C16.v):  [id, msg, fname, kind, ctx]
 #   fname: [] | [0, str] | [1]     kind: [0] | [1, etype, lineno?] | [2, lineno?]
 #   ctx:   [0] | [1, text, lineno?, pos] | [2, text, start?, pos] | [3, line?]
+def fn_value(fn):
+    """wire file name -> the Python object: None, str, bytes, or an object that is neither (an int)"""
+    if fn == []:
+        return None
+    if fn[0] == 0:
+        return S(fn[1])
+    if fn[0] == 2:
+        return bytes(fn[1])
+    return 5
+
+def fn_text(fn):
+    """what the property expects to see as file name in a rendering (independent of pybtex)"""
+    v = fn_value(fn)
+    if isinstance(v, bytes):
+        return v.decode(sys.getfilesystemencoding() or 'utf-8', 'replace')
+    return v if isinstance(v, str) else ''
+
 def opt(v):
     return [] if v is None else [v]
 
@@ -34,7 +51,7 @@ def mk_err(rec):
     from pybtex.scanner import Scanner, PybtexSyntaxError, TokenRequired
     eid, msg, fn, kind, ctx = rec
     msg = S(msg)
-    filename = None if fn == [] else (S(fn[1]) if fn[0] == 0 else 5)
+    filename = fn_value(fn)
     if kind[0] == 0:
         if ctx[0] != 0:
             raise ValueError('no such error class')
@@ -308,7 +325,7 @@ def impl_scanner(arg):
     from pybtex.exceptions import PybtexError
     from pybtex.errors import format_error
     text, lit, fn = S(arg[0]), S(arg[1]), arg[2]
-    filename = None if fn == [] else (S(fn[1]) if fn[0] == 0 else 5)
+    filename = fn_value(fn)
     sc = Scanner(text, filename)
     try:
         tok = sc.required([Literal(lit)])
@@ -326,7 +343,7 @@ def canon_context_value(c):
     return [0, norm(lines[:-1] if len(lines) > 1 else lines), len(marker) - len(marker.lstrip(' '))]
 
 def _mk_scanner(sc, cls):
-    text, fn, ln, pos = S(sc[0]), (None if sc[1] == [] else S(sc[1][0])), sc[2], sc[3]
+    text, fn, ln, pos = S(sc[0]), fn_value(sc[1]), sc[2], sc[3]
     p = cls(text, filename=fn)
     p.lineno = ln
     p.pos = pos
@@ -340,7 +357,7 @@ def impl_construct(arg):
     tag = arg[0]
     if tag == 0:
         fn = arg[2]
-        e = plain_classes()[len(arg[1]) % len(plain_classes())](S(arg[1]), None if fn == [] else (S(fn[1]) if fn[0] == 0 else 5))
+        e = plain_classes()[len(arg[1]) % len(plain_classes())](S(arg[1]), fn_value(fn))
     elif tag == 1:
         et = S(arg[1])
         p = _mk_scanner(arg[3], Scanner)
@@ -362,7 +379,7 @@ def impl_construct(arg):
         e = TokenRequired(S(arg[1]), p)
     else:
         from pybtex.auxfile import AuxDataError, AuxDataContext
-        c = AuxDataContext(None if arg[2][0] == [] else S(arg[2][0][0]))
+        c = AuxDataContext(fn_value(arg[2][0]))
         c.lineno = unopt(arg[2][1])
         c.line = None if arg[2][2] == [] else S(arg[2][2][0])
         e = AuxDataError(S(arg[1]), c)
@@ -463,6 +480,34 @@ def impl_real_aux(arg):
     finally:
         shutil.rmtree(d, ignore_errors=True)
 
+def _with_bytes_path(name, text, run):
+    """write the text to a file whose name is the given bytes (possibly not valid UTF-8) in a fresh
+    directory and run the three-mode comparison on its bytes path"""
+    d = tempfile.mkdtemp(prefix='c16b')
+    try:
+        name = bytes(name).replace(b'/', b'_').replace(b'\x00', b'_') or b'x'
+        p = os.path.join(os.fsencode(d), name)
+        try:
+            with open(p, 'w', encoding='utf-8', newline='') as f:
+                f.write(S(text))
+        except OSError:
+            return [9]           # the file system refuses the name: nothing to check
+        return _three_renderings(lambda: run(p))
+    finally:
+        shutil.rmtree(d, ignore_errors=True)
+
+def impl_real_bib_bytes(arg):
+    from pybtex.database.input.bibtex import Parser
+    return _with_bytes_path(arg[0], arg[1], lambda p: Parser().parse_file(p))
+
+def impl_real_bst_bytes(arg):
+    from pybtex.bibtex import bst as BSTM
+    return _with_bytes_path(arg[0], arg[1], lambda p: list(BSTM.parse_file(p)))
+
+def impl_real_aux_bytes(arg):
+    from pybtex import auxfile
+    return _with_bytes_path(arg[0], arg[1], lambda p: auxfile.parse_file(p, 'utf-8'))
+
 def oracle_real(out):
     if out == [9]:
         return None
@@ -504,6 +549,9 @@ FUNCS = {
     10: ('parse_string(.bib) in strict / non-strict / capture mode: renderings of every problem', impl_real_bib, 'S'),
     11: ('.bst parsed and run in strict / non-strict / capture mode: renderings of every problem', impl_real_bst, 'S'),
     12: ('.aux parsed in strict / non-strict / capture mode: renderings of every problem', impl_real_aux, 'S'),
+    14: ('Parser().parse_file(bytes path of a .bib) in the three modes', impl_real_bib_bytes, ('T', 'X', 'S')),
+    15: ('bst.parse_file(bytes path) in the three modes', impl_real_bst_bytes, ('T', 'X', 'S')),
+    16: ('auxfile.parse_file(bytes path) in the three modes', impl_real_aux_bytes, ('T', 'X', 'S')),
 }
 
 def _noout(g):
@@ -513,7 +561,7 @@ def canon(fn, out):
     """compare only what the property talks about: whether an error renders, which problems went
     where and in which order, the mode cells, the exit status -- never the wording of a message
     (the oracle checks, within the implementation, that renderings contain the message)"""
-    if fn in (10, 11, 12):
+    if fn in (10, 11, 12, 14, 15, 16):
         return []        # not modelled: the parsers belong to C10/C15/C20; oracle only
     try:
         if fn in (1, 2, 3):
@@ -739,7 +787,7 @@ def oracle_cmdline(arg, out):
     return None
 
 def oracle(fn, arg, out):
-    if fn in (10, 11, 12):
+    if fn in (10, 11, 12, 14, 15, 16):
         return oracle_real(out)
     if fn == 1:
         rec, prefix = arg
@@ -756,7 +804,12 @@ def oracle(fn, arg, out):
             # the source context is part of the rendering, line by line, before the message
             if not subseq_in_order(S(c[1][0]).splitlines() + [S(prefix) + str_of(rec)], text, ''):
                 return 'the source context %r is not part of the rendering %r' % (S(c[1][0]), text)
-        fnm = S(rec[2][1]) if rec[2][:1] == [0] else ''
+        fnm = fn_text(rec[2])
+        if rec[2][:1] == [2] and rec[2][1]:
+            # a bytes name: the property does not fix how undecodable bytes are shown; demand only that
+            # every line carries one and the same non-empty name
+            head = text.split('\n')[0]
+            fnm = head[:head.find(': ')] if head.find(': ') > 0 else ('\x00missing' if fnm else '')
         if fnm and not (set(text) & LB - {'\n'}):
             # every line carries the file name
             if set(msg) & LB or set(fnm) & LB or set(S(prefix)) & LB:
@@ -808,7 +861,8 @@ def oracle(fn, arg, out):
 # ------------------------------------------------------------------------------------------
 # generators
 MSGS = ['m', 'bad thing', 'a\nb', '', 'x: y', 'é∑', 'tab\there', 'cr\rlf']
-FNAMES = [[], [0, ''], [0, 'f.bib'], [0, 'dir/a b.bst'], [0, 'é.aux']]
+FNAMES = [[], [0, ''], [0, 'f.bib'], [0, 'dir/a b.bst'], [0, 'é.aux'],
+          [2, list(b'plain.bib')], [2, list(b'caf\xe9.bib')], [2, list('d/é.aux'.encode('utf-8'))], [2, []], [2, [0xe2, 0x82]]]
 LINENOS = [[], [0], [1], [2], [7], [12345], [-3]]
 ETYPES = ['syntax error', 'undefined string', 'weird type']
 
@@ -978,18 +1032,28 @@ def gen(tier, rng):
         text = rnd_text(rng, rng.randint(0, 3), ' \n\r\t\x0c\x85 　') + rnd_text(rng, rng.randint(0, 12), 'xy \n\r\x0b{}')
         yield ('rnd_scanner', 7, [text, rng.choice(['x', 'xy', '{', '']), rng.choice(FNAMES)])
     # ---- constructors of the classes: exhaustive small scanner states + random
-    fns = [[], ['f.bib'], ['']]
+    fns = [[], [0, 'f.bib'], [0, ''], [2, list(b'caf\xe9.bst')], [2, list('é'.encode('utf-8'))]]
     for n in range(0, (3 if quick else 4) + 1):
         for t in itertools.product('a\n\r\x0c', repeat=n):
             text = ''.join(t)
             for pos in range(0, n + 1):
                 for ln in (1, 2, 3):
-                    sc = [text, fns[(n + pos + ln) % 3], ln, pos]
+                    sc = [text, fns[(n + pos + ln) % len(fns)], ln, pos]
                     yield ('exh_construct', 13, [3, "'x'", sc])
                     yield ('exh_construct', 13, [4, 'a name', sc, [[], [0], [1]][(pos + ln) % 3]])
                     if pos == 0:
                         yield ('exh_construct', 13, [2, sc])
                         yield ('exh_construct', 13, [1, ETYPES[ln - 1], MSGS[n % len(MSGS)], sc])
+    UB = [0x41, 0x80, 0xBF, 0xC0, 0xC2, 0xE0, 0xA0, 0x9F, 0xED, 0xE1, 0xF0, 0x90, 0x8F, 0xF4, 0xFF]
+    for n in range(0, (3 if quick else 4) + 1):
+        for t in itertools.product(UB, repeat=n):
+            yield ('exh_bytes_filename', 13, [0, 'm', [2, list(t)]])
+    for i in range(N):
+        b = bytes(rng.choice(UB + [0x2F, 0x2E, 0x7A, 0xC3, 0xA9, 0xF1, 0xF5, 0xEF, 0xBB]) for _ in range(rng.randint(1, 12)))
+        if rng.random() < 0.4:
+            b = rnd_text(rng, rng.randint(1, 6), 'aé€𝄞/.').encode('utf-8') + b[:rng.randint(0, 3)]
+        k = rng.randrange(3)
+        yield ('rnd_bytes_filename', 13, [[0, 'm', [2, list(b)]], [5, 'm', [[2, list(b)], [3], ['\\bibdata{x}']]], [1, 'syntax error', 'm', ['ab', [2, list(b)], 1, 0]]][k])
     for msg in MSGS:
         for fn_ in FNAMES + [[1]]:
             yield ('exh_construct', 13, [0, msg, fn_])
@@ -1034,6 +1098,27 @@ def gen(tier, rng):
         for _ in range(rng.randint(1, 2)):
             t = corrupt(rng, t, ['\\', '{', '}', '\n', 'citation', 'bibstyle', 'bibdata', 'A', ',', '\r\n'])
         yield ('real_aux', 12, t)
+    # ---- the same through files given as BYTES paths, incl. names that are not valid UTF-8
+    BN = [b'caf\xe9.bib', b'plain.bib', 'é€.bib'.encode('utf-8'), b'\xff\xfe', b'a\xe2\x82.x', b'\xf0\x9f\x98.aux']
+    k = 0
+    for t in ['@article{k, a = }\n' + tail, '@a{k, a = {x}, A = {y}}\n@a{k, b = c}\n' + tail, '@a{k,\n\n a = {x}\n b = {y}}\n' + tail]:
+        for nm in BN:
+            yield ('real_bytes_path', 14, [list(nm), t])
+    for t in [bst_tail + 'foo {x}\n', 'FUNCTION {f\n\n', 'FUNCTION {f} { "x }\n']:
+        for nm in BN:
+            yield ('real_bytes_path', 15, [list(nm), t])
+    for t in [AUX + aux_tail, aux_tail, '\\citation{a}\n']:
+        for nm in BN:
+            yield ('real_bytes_path', 16, [list(nm), t])
+    for i in range(NR // 8):
+        nm = bytes(rng.choice([0x41, 0x2E, 0x80, 0xC3, 0xA9, 0xE9, 0xFF, 0xE2, 0x82, 0xAC, 0xF0]) for _ in range(rng.randint(1, 8)))
+        t = BIB
+        for _ in range(rng.randint(1, 2)):
+            t = corrupt(rng, t, bib_toks)
+        yield ('real_bytes_path', 14, [list(nm), t + tail])
+        t = AUX + aux_tail
+        t = corrupt(rng, t, ['\\', '{', '}', '\n', 'citation', 'bibstyle', 'bibdata', 'A', ','])
+        yield ('real_bytes_path', 16, [list(nm), t])
     # ---- malformed: inconsistent scanner states, negative positions
     for i in range(N // 3):
         text = rnd_text(rng, rng.randint(0, 12), 'ab \n\r\x0c')
@@ -1060,12 +1145,12 @@ def nontrivial(fn, arg, out):
         return out[0] == 1
     if fn == 8:
         return len(out) >= 2
-    if fn in (10, 11, 12):
+    if fn in (10, 11, 12, 14, 15, 16):
         return True
     return True
 
 def describe_err(r):
-    return {'id': r[0], 'message': S(r[1]), 'filename': None if r[2] == [] else (S(r[2][1]) if r[2][0] == 0 else '<int 5>'),
+    return {'id': r[0], 'message': S(r[1]), 'filename': (repr(fn_value(r[2])) if r[2] != [1] else '<int 5>'),
             'kind': [r[3][0]] + [S(x) if isinstance(x, list) and x and k == 1 and r[3][0] == 1 else x for k, x in enumerate(r[3][1:], 1)],
             'context': [r[4][0]] + [S(x) if k == 1 and r[4][0] in (1, 2) else x for k, x in enumerate(r[4][1:], 1)]}
 
@@ -1087,6 +1172,8 @@ def describe(fn, arg):
     if fn == 13:
         return {'constructor': ['PybtexError(message, filename)', 'PybtexSyntaxError(message, parser)', 'PrematureEOF(parser)', 'TokenRequired(description, Scanner)', 'TokenRequired(description, LowLevelParser)', 'AuxDataError(message, context)'][arg[0]],
                 'args': [S(x) if isinstance(x, list) and x and all(isinstance(c, int) for c in x) else x for x in arg[1:]]}
+    if fn in (14, 15, 16):
+        return {'kind': {14: '.bib', 15: '.bst', 16: '.aux'}[fn], 'bytes file name': repr(bytes(arg[0])), 'text': S(arg[1])}
     if fn in (10, 11, 12):
         return {'kind': {10: '.bib', 11: '.bst', 12: '.aux'}[fn], 'text': S(arg)}
     return {'value': arg}
@@ -1260,7 +1347,7 @@ def err_to_record(e, eid=0):
     from pybtex.scanner import PybtexSyntaxError, TokenRequired
     from pybtex.auxfile import AuxDataError
     f = getattr(e, 'filename', None)
-    fn = [] if f is None else ([0, f] if isinstance(f, str) else [1])
+    fn = [] if f is None else ([0, f] if isinstance(f, str) else ([2, list(f)] if isinstance(f, bytes) else [1]))
     t = type(e)
     # the attributes below are implementation details: when they are not there the object is not
     # translated (counted as skipped), never a crash of the check
@@ -1568,7 +1655,7 @@ def instantiate_classes(errcls):
     byname = {'message': ['some message', 'two\nlines'], 'description': ['a thing'], 'name_string': ['a, b, c, d'],
               'group_name': ['no.group'], 'plugin_group': ['pybtex.x.suffixes'], 'name': ['nm', '.sfx'],
               'field_name': ['title'], 'entry_key': ['k'], 'parser': [sc], 'context': [ctx],
-              'entry': [Entry('misc'), object()], 'filename': [None, 'file.x', '']}
+              'entry': [Entry('misc'), object()], 'filename': [None, 'file.x', '', b'caf\xe9.bib']}
     out = []
     for name, (rel, ln, bases) in sorted(errcls.items()):
         modname = rel[:-3].replace(os.sep, '.')
@@ -1606,6 +1693,11 @@ def extra_checks(ck, tier, rng):
         if a != (cp in MODEL_LB):
             fails.append(('U+%04X' % cp, 'splitlines breaks=%s model=%s' % (a, cp in MODEL_LB), False))
     yield {'name': 'linebreak_class_sweep', 'evaluations': n, 'failures': fails[:5], 'info': 'str.splitlines / Model.Errors.is_lb agree on every code point'}
+
+    fse = sys.getfilesystemencoding()
+    yield {'name': 'filesystem_encoding_is_utf8', 'evaluations': 1,
+           'failures': [] if (fse or 'utf-8').lower().replace('-', '') == 'utf8' else [('sys.getfilesystemencoding()', 'the model decodes bytes file names as UTF-8 with replacement, but the file system encoding is %r' % fse, False)],
+           'info': fse}
 
     # 2. non-interference premise: nobody but errors.py (and the command line) touches the mode cells
     touches, errcls, sites = ast_scan()
